@@ -93,25 +93,39 @@ impl<'a> Ctx<'a> {
         }
     }
 
-    fn go(&mut self, lin: &mut Vec<u64>, state: u32, done: usize) -> Option<bool> {
+    /// `lo`: every op before index `lo` is already linearized (ops are sorted by call time, and a
+    /// linearization mostly proceeds in that order, so the scans below touch only the window of
+    /// operations concurrent with the oldest unlinearized one).
+    fn go(&mut self, lin: &mut Vec<u64>, state: u32, done: usize, lo: usize) -> Option<bool> {
         self.steps += 1;
         if self.steps > self.budget {
             return None;
         }
-        // finished when every completed op is linearized
-        let mut min_ret = u64::MAX;
-        let mut pending_completed = false;
-        for (i, e) in self.ops.iter().enumerate() {
-            if !bit(lin, i)
-                && let Some(r) = e.ret
-            {
-                pending_completed = true;
-                if r < min_ret {
-                    min_ret = r;
-                }
-            }
+        let n = self.ops.len();
+        let mut lo = lo;
+        while lo < n && bit(lin, lo) {
+            lo += 1;
         }
-        if !pending_completed {
+        // minimal return time among unlinearized completed ops; an op invoked after it cannot
+        // be linearized next. Scanning stops at the first op invoked after the current minimum
+        // (its return, and that of every later op, is later still).
+        let mut min_ret = u64::MAX;
+        let mut hi = lo;
+        while hi < n {
+            let e = &self.ops[hi];
+            if e.call > min_ret {
+                break;
+            }
+            if !bit(lin, hi)
+                && let Some(r) = e.ret
+                && r < min_ret
+            {
+                min_ret = r;
+            }
+            hi += 1;
+        }
+        if min_ret == u64::MAX {
+            // finished: every completed op is linearized
             return Some(true);
         }
         if done > self.best {
@@ -122,17 +136,16 @@ impl<'a> Ctx<'a> {
         if self.memo.contains(&key) {
             return Some(false);
         }
-        for i in 0..self.ops.len() {
+        for i in lo..hi {
             if bit(lin, i) {
                 continue;
             }
             if self.ops[i].call > min_ret {
-                // ops are sorted by call: nothing later can be minimal either
                 break;
             }
             if let Some(ns) = self.apply(i, state) {
                 set_bit(lin, i);
-                let r = self.go(lin, ns, done + 1);
+                let r = self.go(lin, ns, done + 1, lo);
                 clear_bit(lin, i);
                 match r {
                     None => return None,
@@ -200,7 +213,7 @@ pub fn check_key(ops: &[LEntry], initial: Option<Vec<u8>>, budget: u64) -> (Verd
         best_lin: vec![0; words],
     };
     let mut lin = vec![0u64; words];
-    match ctx.go(&mut lin, init, 0) {
+    match ctx.go(&mut lin, init, 0, 0) {
         None => (Verdict::Inconclusive, vec![]),
         Some(true) => (Verdict::Linearizable, vec![]),
         Some(false) => {
